@@ -3,9 +3,9 @@
 From Coq Require Import String Permutation.
 From TT Require Import Lib.Base Lib.Sort Model.Utf8 Model.MimeCt Model.Content Spec.C16 Corr.C16 Proof.Utf8Sweep Proof.C16.
 
-(* The model meets the whole statement on every input of the eight scenario kinds: every text over Unicode scalar
+(* The model meets the whole statement on every input of the nine scenario kinds: every text over Unicode scalar
    values, every chunk list, every byte string under all its splits, every source content / position / seek offset
-   (any integer) / origin / chunk_size >= 1 / buffer_now, every pair of contents, every content type of the modelled
+   (any integer) / origin / chunk_size >= 1 / buffer_now, every mutable list and mutation sequence, every pair of contents, every content type of the modelled
    domain - outside the known finding F16 (full statement: the same without the finding_F16 hypothesis; it is false,
    see C16_refuted_F16). *)
 Theorem C16_holds : forall i : input, wf i = true -> finding_F16 i = false -> spec_okb i (model i) = true.
@@ -154,13 +154,30 @@ Theorem C16_mime_roundtrip : forall ct, wf_ct ct = true ->
 Proof. exact mime_roundtrip_same. Qed.
 Print Assumptions C16_mime_roundtrip.
 
-(* ---- snapshots: the copy has the type of the original and yields, from ANY later world and without touching it,
-   exactly the chunks the original yielded at copy time ---- *)
+(* ---- snapshots: _copy_content puts the chunks into a NEW list object (a location that did not exist before, so
+   shared with nothing - in particular not with a list the source's callback may have handed out); the copy has the
+   type of the original and yields, from ANY later world that still has those chunks at that location and without
+   touching it, exactly what the original yielded at copy time ---- *)
 Theorem C16_snapshot : forall c w cp w1, copy_content c w = (Ok cp, w1) ->
   c_type cp = c_type c
-  /\ exists cs, iter_bytes c w = (Ok cs, w1) /\ forall w', iter_bytes cp w' = (Ok cs, w').
+  /\ exists cs w', iter_bytes c w = (Ok cs, w')
+                   /\ c_src cp = InList (length (w_heap w))
+                   /\ w_heap w1 = w_heap w ++ [cs]
+                   /\ forall w2, heap_get (length (w_heap w)) (w_heap w2) = cs -> iter_bytes cp w2 = (Ok cs, w2).
 Proof. exact snapshot. Qed.
 Print Assumptions C16_snapshot.
+
+(* ... hence no sequence of writes to locations that existed when the copy was made (the source's own list
+   included) and no change of the stream/file reaches the copy *)
+Theorem C16_snapshot_unaffected : forall c w cp w1 cs w',
+  copy_content c w = (Ok cp, w1) -> iter_bytes c w = (Ok cs, w') ->
+  forall writes : list (loc * list chunk), Forall (fun lv => fst lv < length (w_heap w)) writes ->
+  forall d p r,
+    let w2 := {| w_data := d; w_pos := p; w_reads := r;
+                 w_heap := fold_left (fun h lv => heap_set (fst lv) (snd lv) h) writes (w_heap w1) |} in
+    iter_bytes cp w2 = (Ok cs, w2).
+Proof. exact snapshot_unaffected. Qed.
+Print Assumptions C16_snapshot_unaffected.
 
 (* the tables read from the live code say what the model relies on *)
 Theorem C16_tables : str_eqb (ct_type Gen.Ctc16.UTF8_TEXT) (sb "text") = true
@@ -170,7 +187,8 @@ Print Assumptions C16_tables.
 
 (* non-vacuity: an astral + combining + NUL text round-trips; a 3-byte sequence cut in the middle with an empty
    chunk in between decodes, its truncation raises under a split; a read loop over 5 bytes from offset -4 (SEEK_END)
-   in chunks of 2; an unbuffered content sees the later world, the snapshot does not; a wf_ct type with two
+   in chunks of 2; an unbuffered content sees the later world, the snapshot does not; a copy gathered from a
+   mutable list keeps its chunks when the list is cleared and refilled; a wf_ct type with two
    parameters round-trips; the F16 witness does not *)
 Example C16_example :
   as_text (text_content [0x1F600; 0x65; 0x301; 0]%N) w0 = (Ok [0x1F600; 0x65; 0x301; 0]%N, w0)
@@ -183,6 +201,8 @@ Example C16_example :
                        /\ fst (iter_bytes c (set_source w1 [9]%N 0)) = Ok [[9]]%N
       | _ => False
       end)
+  /\ model (ISnapList {| sl_tuple := false; sl_buf := [[1]; [2]]%N; sl_ops := [LClear; LAppend [7%N]] |})
+     = OSnapList true (Ok [[1]; [2]]%N) (Ok [[1]; [2]]%N) (Ok [[7]]%N)
   /\ wf_ct {| ct_type := sb "text"; ct_sub := sb "x-traceback";
               ct_params := [(sb "language", sb "python"); (sb "charset", sb "utf8")] |} = true
   /\ finding_F16 (IMime {| ct_type := sb "text"; ct_sub := sb "plain"; ct_params := [(sb "a", sb "b\c")] |}) = true.
